@@ -138,17 +138,26 @@ def c02_user_sfl_family(rng, n):
         p0 = Fraction(rng.randint(800, 2000), 100)
         p1 = p0 * Fraction(rng.randint(30, 95), 100)
         p1 = Fraction(int(p1 * 100), 100)
+        if rng.random() < 0.5:
+            # computed values that are not a whole number of cents
+            p0 += Fraction(rng.randint(1, 99), 10000)
+            p1 += Fraction(rng.randint(1, 99), 10000)
+        pdp = 4
         off = rng.choice([1, 5, 29, 30])
-        rows = [mkrow("BAR", iso(base - datetime.timedelta(days=90)), "Buy", "", shares=str(q0), aps=gen.dec_str(p0, 2), cur="CAD")]
+        rows = [mkrow("BAR", iso(base - datetime.timedelta(days=90)), "Buy", "", shares=str(q0), aps=gen.dec_str(p0, 4), cur="CAD")]
         loss = sold * (p1 - p0)
         n_sfl = min(sold, rebuy, q0 - sold + rebuy)
         computed = loss * n_sfl / sold
-        dist = rng.choice(["0", "0.0009", "0.001", "0.0011", "1", "-0.0009", "-0.0011", "zero", "noloss"])
+        dist = rng.choice(["0", "0.0009", "0.001", "0.0011", "1", "-0.0009", "-0.0011", "0.004", "-0.004", "0.0049", "zero", "noloss", "beyond"])
         forced = rng.random() < 0.4
-        sale = mkrow("BAR", iso(base), "Sell", "", shares=str(sold), aps=gen.dec_str(p1, 2), cur="CAD")
+        sale = mkrow("BAR", iso(base), "Sell", "", shares=str(sold), aps=gen.dec_str(p1, 4), cur="CAD")
         if dist == "noloss":
-            sale["aps"] = gen.dec_str(p0 + 1, 2)
+            sale["aps"] = gen.dec_str(p0 + 1, 4)
             sale["sfl"] = "-1.00" + ("!" if forced else "")
+        elif dist == "beyond":
+            # a forced value larger in magnitude than the loss itself: the reported gain is then positive
+            forced = True
+            sale["sfl"] = "-" + gen.floor_dec(-loss + Fraction(rng.choice(["2.5", "0.01", "100"])), 10) + "!"
         elif dist == "zero":
             sale["sfl"] = "0" + ("!" if forced else "")
         else:
@@ -166,8 +175,8 @@ def c02_user_sfl_family(rng, n):
             amt = -Fraction(sale["sfl"].rstrip("!"))
             if amt > 0:
                 rows.append(mkrow("BAR", iso(base), "SfLA", "", shares="1", aps=gen.floor_dec(amt, 10)))
-        rows.append(mkrow("BAR", iso(base + datetime.timedelta(days=off)), "Buy", "", shares=str(rebuy), aps=gen.dec_str(p1, 2), cur="CAD"))
-        rows.append(mkrow("BAR", iso(base + datetime.timedelta(days=120)), "Sell", "", shares="1", aps=gen.dec_str(p0, 2), cur="CAD"))
+        rows.append(mkrow("BAR", iso(base + datetime.timedelta(days=off)), "Buy", "", shares=str(rebuy), aps=gen.dec_str(p1, 4), cur="CAD"))
+        rows.append(mkrow("BAR", iso(base + datetime.timedelta(days=120)), "Sell", "", shares="1", aps=gen.dec_str(p0, 4), cur="CAD"))
         out.append(("user_sfl dist=%s forced=%s" % (dist, forced),
                     {"rows": rows, "init": {}, "features": ["user_sfl_family", "dist_" + dist]}))
     return out
@@ -182,7 +191,8 @@ def c04_reason_family(rng, n):
         kind = rng.choice(["oversell_exact", "oversell_eps", "sell_all_after_rsplit", "roc_exact", "roc_eps",
                            "roc_reg", "sfla_reg", "rsplit_frac", "rsplit_int_ok", "rsplit_dec_ok",
                            "sfl_no_loss", "sfl_mismatch", "sfl_match", "oversell_other_af", "late_error",
-                           "sell_all_after_split_loss"])
+                           "sell_all_after_split_loss", "rsplit_nonlowest_ok", "rsplit_frac_holding_ok", "rsplit_nonlowest_frac",
+                           "first_row_oversell", "first_row_roc_reg", "first_row_sfla_reg", "first_row_other_af_sell"])
         q = rng.choice([3, 7, 9, 10, 11, 30, 100])
         p = gen.rand_dec(rng, 1, 200, 2)
         af2 = rng.choice(["Spouse", "Kid"])
@@ -241,6 +251,37 @@ def c04_reason_family(rng, n):
             rows = [mkrow("FOO", D(0), "Buy", "", shares=str(q), aps=p, cur="CAD"),
                     mkrow("FOO", D(20), "Split", "", split="1.0-for-2.0"),
                     mkrow("FOO", D(60), "Sell", "", shares=gen.dec_str(Fraction(q, 2), 1), aps=p, cur="CAD")]
+        elif kind == "rsplit_nonlowest_ok":
+            # whole-number reverse split whose ratio is not in lowest terms; the result is whole
+            a_, b_ = rng.choice([(2, 4), (10, 25), (3, 6), (4, 10), (2, 6)])
+            q = b_ * rng.randint(1, 9)
+            rows = [mkrow("FOO", D(0), "Buy", "", shares=str(q), aps=p, cur="CAD"),
+                    mkrow("FOO", D(20), "Split", rng.choice(["", "Default"]), split="%d-for-%d" % (a_, b_)),
+                    mkrow("FOO", D(60), "Sell", "", shares=str(q * a_ // b_), aps=p, cur="CAD")]
+        elif kind == "rsplit_frac_holding_ok":
+            # a fractional holding that consolidates to whole shares
+            rows = [mkrow("FOO", D(0), "Buy", "", shares="7.5", aps=p, cur="CAD"),
+                    mkrow("FOO", D(20), "Split", "", split="2-for-5"),
+                    mkrow("FOO", D(60), "Sell", "", shares="3", aps=p, cur="CAD")]
+        elif kind == "rsplit_nonlowest_frac":
+            a_, b_ = rng.choice([(2, 4), (10, 25), (3, 6)])
+            q = b_ * rng.randint(1, 9) + 1
+            rows = [mkrow("FOO", D(0), "Buy", "", shares=str(q), aps=p, cur="CAD"),
+                    mkrow("FOO", D(20), "Split", "", split="%d-for-%d" % (a_, b_)),
+                    mkrow("FOO", D(60), "Sell", "", shares="1", aps=p, cur="CAD")]
+        elif kind == "first_row_oversell":
+            rows = [mkrow("FOO", D(0), "Sell", "", shares=str(q), aps=p, cur="CAD"),
+                    mkrow("FOO", D(10), "Buy", "", shares=str(q), aps=p, cur="CAD")]
+        elif kind == "first_row_roc_reg":
+            rows = [mkrow("FOO", D(0), "RoC", "Default (R)", aps="0.1"),
+                    mkrow("FOO", D(10), "Buy", "", shares=str(q), aps=p, cur="CAD")]
+        elif kind == "first_row_sfla_reg":
+            rows = [mkrow("FOO", D(0), "SfLA", af2 + " (R)", shares="1", aps="2.5"),
+                    mkrow("FOO", D(10), "Buy", "", shares=str(q), aps=p, cur="CAD")]
+        elif kind == "first_row_other_af_sell":
+            # the purchase was booked under another affiliate; the seller holds nothing
+            rows = [mkrow("FOO", D(0), "Sell", af2, shares=str(q), aps=p, cur="CAD"),
+                    mkrow("FOO", D(0), "Buy", "", shares=str(q), aps=p, cur="CAD")]
         elif kind == "sfl_no_loss":
             rows.append(mkrow("FOO", D(50), "Sell", "", shares="1", aps=gen.dec_str(Fraction(p) + 5, 2), cur="CAD", sfl="-1.5"))
         elif kind in ("sfl_mismatch", "sfl_match"):
@@ -318,6 +359,16 @@ def judge(prop, h, res):
             out["nontrivial"] = True
         if prop == "C03" and "multi_buyer_sfl" in A.features:
             out["nontrivial"] = True
+        if prop == "C02":
+            # "is rejected when it differs from the computed value by more than 0.001 unless marked forced"
+            declared_reject = A.ref_reject is not None and A.ref_reject[1] in ("sfl_mismatch", "sfl_no_loss")
+            tool_declared = A.tool_error is not None and "superficial loss was specified" in A.tool_error
+            if declared_reject and A.tool_error is None:
+                out["findings"].append({"prop": "C02", "sec": sec, "what": "a declared superficial loss that contradicts the computed one (or a sale without loss) is accepted",
+                                        "detail": {"reason": A.ref_reject[1], "date": str(A.ref_reject[0].td), "declared": A.ref_reject[0].row.get("sfl")}})
+            if tool_declared and not declared_reject:
+                out["findings"].append({"prop": "C02", "sec": sec, "what": "a declared superficial loss within 0.001 of the computed one (or forced) is rejected",
+                                        "detail": {"msg": A.tool_error}})
         if prop == "C04":
             judge_c04(out, h, sec, A, tables.get(sec))
     if prop == "C04":
